@@ -201,14 +201,17 @@ def case(c):
         A = A.real
     snorm = np.linalg.norm(svec)
 
-    # caller-supplied initial field
+    # caller-supplied initial field (its amplitude follows the amplitude of
+    # the source: a start field many orders of magnitude larger than the
+    # solution has a rounding error above tol ||s|| before the solver starts)
     efield = None
     e0 = None
+    amp = 1.0 if skind != 'weak' else 1e-13
     if ekind is not None:
         if ekind == 'zeros':
             e0 = np.zeros(im.size, dtype=dtype)
         elif ekind == 'rnd':   # non-zero tangential boundary values too
-            e0 = zoo.random_field(grid, 'e0', dtype, pec=False)*1e-3
+            e0 = zoo.random_field(grid, 'e0', dtype, pec=False)*1e-3*amp
         elif ekind in ('exact', 'near'):
             e0 = fit.solve_direct(A, svec, n).astype(dtype)
             if ekind == 'near':
@@ -217,7 +220,7 @@ def case(c):
             # solves the system only thanks to non-zero tangential values on
             # the upper boundary planes (which the PEC zeroing must remove
             # BEFORE the 'already good enough' test)
-            bvals = zoo.random_field(grid, 'lift', dtype, pec=False)*1e-9
+            bvals = zoo.random_field(grid, 'lift', dtype, pec=False)*1e-9*amp
             upper = np.concatenate([
                 np.ravel(m_, order='F') for m_ in _upper_planes(n)])
             bvals = bvals*upper
@@ -227,7 +230,7 @@ def case(c):
             e0 = np.zeros(im.size, dtype=float if np.dtype(dtype).kind == 'c'
                           else complex)
         elif ekind == 'nofreq':
-            e0 = zoo.random_field(grid, 'e0', dtype)*1e-3
+            e0 = zoo.random_field(grid, 'e0', dtype)*1e-3*amp
         if ekind in ('wrongdtype', 'nofreq'):
             efield = emg3d.Field(grid, data=e0.copy())
         else:
